@@ -7,110 +7,6 @@ import (
 	"verif/harness/tgen"
 )
 
-// BigSpec describes a container that really holds more elements than the
-// decoder allocates up front (thrift/decode.go: maxPrealloc = 1024 elements for
-// slices, the same number as size hint of maps and sets).
-type BigSpec struct {
-	Container string `json:"container"` // list | set | map
-	Elem      string `json:"elem"`      // element (list) or key (set, map) kind: bool i8 i16 i32 i64 f64 str struct
-	Val       string `json:"val,omitempty"`
-	N         int    `json:"n"`    // elements really present
-	Nest      string `json:"nest"` // top | struct | ptr-struct | list | map: where the container sits
-}
-
-func bigKind(s string) tgen.TypeDesc {
-	switch s {
-	case "bool":
-		return tgen.TypeDesc{K: tgen.KBool}
-	case "i8":
-		return tgen.TypeDesc{K: tgen.KI8}
-	case "i16":
-		return tgen.TypeDesc{K: tgen.KI16}
-	case "i32":
-		return tgen.TypeDesc{K: tgen.KI32}
-	case "i64":
-		return tgen.TypeDesc{K: tgen.KI64}
-	case "f64":
-		return tgen.TypeDesc{K: tgen.KF64}
-	case "str":
-		return tgen.TypeDesc{K: tgen.KStr}
-	case "struct":
-		return tgen.TypeDesc{K: tgen.KStruct, Fields: []tgen.FieldDesc{{ID: 1, T: tgen.TypeDesc{K: tgen.KI8}}, {ID: 2, T: tgen.TypeDesc{K: tgen.KBool}}}}
-	}
-	panic("bigcount: unknown kind " + s)
-}
-
-// bigElem is the i-th element / key: distinct for every i.
-func bigElem(kind string, i int) tgen.Recipe {
-	switch kind {
-	case "bool":
-		return tgen.Recipe{I: int64(i % 2)}
-	case "i8":
-		return tgen.Recipe{I: int64(i%251 - 125)}
-	case "i16", "i32", "i64":
-		return tgen.Recipe{I: int64(i - 7)}
-	case "f64":
-		return tgen.Recipe{F: 0x3ff0000000000000 + uint64(i)}
-	case "str":
-		return tgen.Recipe{B: []byte(fmt.Sprintf("k%d", i))}
-	case "struct":
-		return tgen.Recipe{E: []tgen.Recipe{{I: int64(i%100 + 1)}, {I: 1}}}
-	}
-	panic("bigcount: unknown kind " + kind)
-}
-
-// build returns the target type and value of the spec.
-func (b *BigSpec) build() (tgen.TypeDesc, tgen.Recipe) {
-	elem := bigKind(b.Elem)
-	var ct tgen.TypeDesc
-	cr := tgen.Recipe{}
-	switch b.Container {
-	case "list":
-		ct = tgen.TypeDesc{K: tgen.KList, Elem: &elem}
-		for i := 0; i < b.N; i++ {
-			cr.E = append(cr.E, bigElem(b.Elem, i))
-		}
-	case "set":
-		ct = tgen.TypeDesc{K: tgen.KSet, Key: &elem}
-		for i := 0; i < b.N; i++ {
-			cr.K = append(cr.K, bigElem(b.Elem, i))
-		}
-	default:
-		val := bigKind(b.Val)
-		ct = tgen.TypeDesc{K: tgen.KMap, Key: &elem, Elem: &val}
-		for i := 0; i < b.N; i++ {
-			cr.K = append(cr.K, bigElem(b.Elem, i))
-			cr.E = append(cr.E, bigElem(b.Val, i))
-		}
-	}
-	i32 := tgen.TypeDesc{K: tgen.KI32}
-	st := func(fs ...tgen.FieldDesc) tgen.TypeDesc { return tgen.TypeDesc{K: tgen.KStruct, Fields: fs} }
-	switch b.Nest {
-	case "struct", "ptr-struct":
-		inner := st(tgen.FieldDesc{ID: 3, T: i32}, tgen.FieldDesc{ID: 20, T: ct})
-		ir := tgen.Recipe{E: []tgen.Recipe{{I: 5}, cr}}
-		if b.Nest == "ptr-struct" {
-			return st(tgen.FieldDesc{ID: 1, T: tgen.TypeDesc{K: tgen.KPtr, Elem: &inner}}, tgen.FieldDesc{ID: 2, T: i32}), tgen.Recipe{E: []tgen.Recipe{{E: []tgen.Recipe{ir}}, {I: 9}}}
-		}
-		return st(tgen.FieldDesc{ID: 1, T: inner}, tgen.FieldDesc{ID: 2, T: i32}), tgen.Recipe{E: []tgen.Recipe{ir, {I: 9}}}
-	case "list":
-		small := tgen.Recipe{}
-		if b.Container == "list" {
-			small.E = []tgen.Recipe{bigElem(b.Elem, 0)}
-		} else {
-			small.K = []tgen.Recipe{bigElem(b.Elem, 0)}
-			if b.Container == "map" {
-				small.E = []tgen.Recipe{bigElem(b.Val, 0)}
-			}
-		}
-		return st(tgen.FieldDesc{ID: 1, T: tgen.TypeDesc{K: tgen.KList, Elem: &ct}}, tgen.FieldDesc{ID: 2, T: i32}), tgen.Recipe{E: []tgen.Recipe{{E: []tgen.Recipe{small, cr}}, {I: 9}}}
-	case "map":
-		return st(tgen.FieldDesc{ID: 1, T: tgen.TypeDesc{K: tgen.KMap, Key: &i32, Elem: &ct}}, tgen.FieldDesc{ID: 2, T: i32}),
-			tgen.Recipe{E: []tgen.Recipe{{K: []tgen.Recipe{{I: 42}}, E: []tgen.Recipe{cr}}, {I: 9}}}
-	}
-	return st(tgen.FieldDesc{ID: 1, T: ct}, tgen.FieldDesc{ID: 2, T: i32}), tgen.Recipe{E: []tgen.Recipe{cr, {I: 9}}}
-}
-
 // bigCount: the valid encoding really holds N > 1024 elements; the announced
 // count of that container is inflated and each decode is measured on its own
 // against the bytes available.
@@ -120,7 +16,7 @@ func (e *engine) bigCount() {
 		e.resp.Fail = &evid.Failure{Oracle: "harness", Observed: "bigcount case without a usable spec", Class: "harness"}
 		return
 	}
-	td, rec := c.Big.build()
+	td, rec := c.Big.Build()
 	e.typ = td.Type()
 	e.sig = tgen.Sig(&td)
 	v := tgen.Build(&td, &rec)
